@@ -51,11 +51,19 @@ MANIFEST = {
                 "(tie_Ptr_fields_mirror): an increment moved behind the release, a missing increment, a release through the wrong handle, a "
                 "one-field swap changes the generated value and the equalities no longer check. (b) New calls in model, theorems and "
                 "correspondence: String(usize capacity), attach to unterminated memory + operator const char*() (both overloads), toUpperCase, "
-                "Variant(const String&/List&/Array&/HashMap&), Xml::Variant(const String&/Element&) as NOp constructors (covered by all "
-                "nested_* theorems, callOk, lowRecv_lists; mt_calls_admitted: every call may be started by any thread of SReach); "
+                "Variant(const String&/List&/Array&/HashMap&), Xml::Variant(const String&/Element&) as calls of the model (ApiOp gNew / gEdit, see below; covered by all "
+                "nested_* theorems; mt_calls_admitted: every call may be started by any thread of SReach); "
                 "String(literal), append(const String&), append(char), operator+=, prepend(const String&), detach() are driven on the real "
                 "class and resolved by the driver, in the state in which the call starts, to the model calls sLit / sAppend / sPrepend / sEdit "
-                "whose step lists they share. NOT covered "
+                "whose step lists they share. Second leg: the bodies WITH the plain counter read are translated too (37 bodies: String::clear, "
+                "detach, the four mutable accessors and operator=(T) of Variant, Xml::Variant operator=(String) and toElement; the allocation is "
+                "followed to its copy statement, so clear() before the copy changes the translation; a local holding the counter is refused) and "
+                "tie_String_detach / _detach_edit / _prepend / _clear, tie_Variant_toString_toMap, tie_Variant_toList_toArray, tie_assignT, "
+                "tie_XmlVariant_toElement prove pre = body up to the read and post = body from the read on (decided by isWriting) for every state; "
+                "the round-7 calls are ApiOp constructors gNew / gEdit with flatOp = true, so totality, mt_call_enabled_*, no_use_after_drop "
+                "quantify over them; the String inside a box as a real embedded handle (tagVStrN; vSetS, sFromV, vAppS = in-place write through "
+                "the embedded handle built from takeE / String call / putE) is MODELLED and under the nested_* / Reach theorems but not tied "
+                "to the code (no harness op). NOT covered "
                 "by any C09 theorem: in-place writes through an embedded handle, the String inside a Variant/Xml::Variant box (flat "
                 "content, hence the cross-kind calls Variant = String variable / String = variant.toString()), boxed elements of "
                 "map payloads and Xml attributes, cascade completeness for d->next = s on a shared object. The model is tied to the current headers on every run: identical op lines are executed by "
@@ -72,9 +80,9 @@ MANIFEST = {
                 "translator's statement patterns (tools/gen_rc.py) and the generic interpretation Ir.exec/Ir.sem (what a pointer variable "
                 "denotes; increment through `data` after `data = other.data` = inc d s, through a local = inc T s and the later store = move; "
                 "release = dec; free, for Ptr the model's relP incl. the destructor of the harness' Node; allocation = alloc with the measured "
-                "capacity; the position of clr is not compared). STILL hand-translated and only tied by the correspondence run: every body "
-                "with the plain counter read (String::clear, detach and its callers, the mutable accessors and operator=(T) of Variant / "
-                "Xml::Variant, Variant::swap), the container code behind embedded handles, and the mapping of the resolved op lines "
+                "capacity; the position of clr is not compared). STILL hand-translated and only tied by the correspondence run: Variant::swap, "
+                "the callers' byte copies around detach, the container code behind embedded handles, the resolution constSkip of operator const "
+                "char*() in the driver, and the mapping of the resolved op lines "
                 "(append(const String&) etc.) to model calls; sequentially consistent "
                 "atomics (__sync_* are full barriers) - TSO/compiler reordering of the plain counter reads is not modelled; payload "
                 "content is flat except for the embedded handles of RefCount objects (next), Variant list payloads (boxed elements) and "
@@ -86,8 +94,8 @@ MANIFEST = {
                 "next handles (plink) are exercised single-threaded only; allocation never fails; the controlled "
                 "interleavings of plain counter reads need the add-only hook patch fixes/rc/hook-01 (without it those reads "
                 "execute together with the preceding atomic step, and the model is run the same way). Partial: apiRun_total_partial, "
-                "apiStep_total_partial (no totality for next-walking and nested calls; the round-7 NOp constructors are outside the "
-                "totality / enabledness / no_use_after_drop theorems, which are stated over ApiOp).",
+                "apiStep_total_partial (no totality for next-walking and nested calls; the cross-kind calls vSetS / sFromV / vAppS are model-only: "
+                "no tie, and the read of the inner counter is decided at the read of the box counter).",
         "design_ref": "DESIGN.md 3/C09",
     }
 }
@@ -889,7 +897,8 @@ def check(ctx):
             "distinct_nontrivial = distinct (op-kind set, final observation) among histories in which a payload was shared")
         ctx.cov["exhaustive"] = False
         ctx.cov["open_statements"] = ["in-place writes through an embedded handle and the cross-kind calls Variant = String variable / String = "
-                                      "variant.toString() (the String inside a box is flat); boxed values of map payloads, Xml attributes (Props.lean OPEN block)",
+                                      "variant.toString(): modelled (vSetS / sFromV / vAppS on tagVStrN boxes) and under the theorems, but not driven on the real "
+                                      "code (the String inside a box is an internal allocation of the harness); boxed values of map payloads, Xml attributes (Props.lean OPEN block)",
                                       "totality of the RefCount::Ptr calls that create or walk `next` handles and of the nested calls (fuel of the cascade), "
                                       "cascade completeness for d->next = s on a shared object (Props.lean OPEN blocks)"]
         ctx.cov["exhaustive_scope"] = (f"single-threaded length<={depth} per scope ({' '.join(f'{k}:{len(v)}' for k, v in SMALL.items())} ops): {len(ex)} histories; "
